@@ -325,7 +325,7 @@ def main(argv):
         i = r["bad"][0]
         broken.append({"kind": "correspondence", "name": s.name, "first_case_index": i,
                        "n_disagreeing": len(r["bad"]), "case_meta": s.meta[i],
-                       "case_term": s.cases[i][:4000],
+                       "case_term": s.cases[i][:100000],
                        "model_says": explain(s, i, workdir)})
     for f in res.failures:
       k = known_keys.get(f.finding_key) if f.finding_key else None
